@@ -1134,12 +1134,21 @@ where
         Self: Send + Sync,
     {
         let self_ = RootedThread::new_root(self.borrow());
-        let level = self_.context().stack.get_frames().len();
+        let (level, stack_len) = {
+            let context = self_.context();
+            (context.stack.get_frames().len(), context.stack.len())
+        };
 
         self.call_thunk(closure).await.or_else(move |mut err| {
             let mut context = self_.context();
             let stack = StackFrame::<State>::current(&mut context.stack);
             let new_trace = reset_stack(stack, level)?;
+            // The values pushed by the failed call must not stay on the stack (they would remain
+            // rooted forever and count towards the stack limit of later calls)
+            let left_over = context.stack.len().saturating_sub(stack_len);
+            if left_over > 0 {
+                context.stack.pop_many(left_over);
+            }
             if let Error::Panic(_, ref mut trace) = err {
                 *trace = Some(new_trace);
             }
@@ -1155,11 +1164,19 @@ where
         Self: Send + Sync,
     {
         let self_ = RootedThread::new_root(self.borrow());
-        let level = self_.context().stack.get_frames().len();
+        let (level, stack_len) = {
+            let context = self_.context();
+            (context.stack.get_frames().len(), context.stack.len())
+        };
         self.execute_io(value).await.or_else(move |mut err| {
             let mut context = self_.context();
             let stack = StackFrame::<State>::current(&mut context.stack);
             let new_trace = reset_stack(stack, level)?;
+            // See `call_thunk_top`
+            let left_over = context.stack.len().saturating_sub(stack_len);
+            if left_over > 0 {
+                context.stack.pop_many(left_over);
+            }
             if let Error::Panic(_, ref mut trace) = err {
                 *trace = Some(new_trace);
             }
